@@ -59,6 +59,11 @@ AllBlocks ==
    L5 |-> Blk("L5", "L5", 5, 51, "X13", "X13", "X13", {"v1", "v3"}, {}, "L4", TRUE),
    E2 |-> Blk("E2", "E2", 2, 21, "A", "A", "A", {"v1", "v2", "v3"}, {}, "R1", TRUE),
    W3 |-> Blk("W3", "W3", 3, 31, "X3", "X3", "X3", {"v3"}, {}, "R2", TRUE),
+   \* forward lunatic family: forged at height 4 by {v1,v3}, time chosen relative to the
+   \* genuine head R3 (t = 30) a lagging honest witness still has: one tick before, equal, one after
+   F4b |-> Blk("F4b", "F4b", 4, 29, "X13", "X13", "X13", {"v1", "v3"}, {}, "R3", TRUE),
+   F4e |-> Blk("F4e", "F4e", 4, 30, "X13", "X13", "X13", {"v1", "v3"}, {}, "R3", TRUE),
+   F4a |-> Blk("F4a", "F4a", 4, 31, "X13", "X13", "X13", {"v1", "v3"}, {}, "R3", TRUE),
    W4 |-> Blk("W4", "W4", 4, 41, "X3", "X3", "X3", {"v3"}, {}, "R3", TRUE),
    N2 |-> Blk("N2", "N2", 2, 21, "A", "A", "A", {"v1", "v2"}, {}, "R1", TRUE),
    Q3 |-> Blk("Q3", "Q3", 3, 31, "X1", "X1", "X1", {"v1"}, {}, "R2", TRUE),
@@ -107,6 +112,15 @@ Persona(H, name) ==
     \* it returns the genuine header but cannot back it against a trace
     [] name = "relay3"    -> Tab(H, <<"R3">>, LAMBDA h : IF h = 3 THEN <<"R3">> ELSE <<"NotFound">>)
     [] name = "relay4"    -> Tab(H, <<"R4">>, LAMBDA h : IF h = 4 THEN <<"R4">> ELSE <<"NotFound">>)
+    \* forward lunatic primaries/accomplices (time offset -1, 0, +1 to the head R3) and honest
+    \* witnesses whose head is R3: staying there, advancing to R4 during the wait, or reaching R3 only
+    \* at the second look
+    [] name = "fwd_m1"    -> Tab(H, <<"F4b">>, LAMBDA h : IF h = 4 THEN <<"F4b">> ELSE IF h > 4 THEN <<"TooHigh">> ELSE <<RName(h)>>)
+    [] name = "fwd_0"     -> Tab(H, <<"F4e">>, LAMBDA h : IF h = 4 THEN <<"F4e">> ELSE IF h > 4 THEN <<"TooHigh">> ELSE <<RName(h)>>)
+    [] name = "fwd_p1"    -> Tab(H, <<"F4a">>, LAMBDA h : IF h = 4 THEN <<"F4a">> ELSE IF h > 4 THEN <<"TooHigh">> ELSE <<RName(h)>>)
+    [] name = "lag3"      -> Tab(H, <<"R3">>, LAMBDA h : IF h > 3 THEN <<"TooHigh">> ELSE <<RName(h)>>)
+    [] name = "lag3adv"   -> Tab(H, <<"R3", "R4">>, LAMBDA h : IF h = 4 THEN <<"TooHigh", "R4">> ELSE IF h > 4 THEN <<"TooHigh">> ELSE <<RName(h)>>)
+    [] name = "lag23"     -> Tab(H, <<"R2", "R3">>, LAMBDA h : IF h > 3 THEN <<"TooHigh">> ELSE <<RName(h)>>)
     [] name = "lunatic3"  -> Tab(H, <<RName(H)>>, LAMBDA h : IF h = 3 THEN <<"L3">> ELSE <<RName(h)>>)
 
 =============================================================================
